@@ -85,6 +85,13 @@ def run(ctx):
         n3 = run_trees(ctx, "depth3", gen.depth3())
     L = gen.leaves() + gen.leaf_statements()
     n0 = run_trees(ctx, "depth0", L)
+    # literals at the limits of their ranges, alone and in every unary/binary context that takes an expression
+    X = [("Int", -9223372036854775808), ("Int", 9223372036854775807), ("Int", -9223372036854775807), ("Int", 1000000), ("Str", "\\"), ("Str", "\"q\""), ("Str", "a\nb\tc"),
+         ("Str", "é😀"), ("Float", "0.0"), ("Float", "123456789.125")]
+    ctxs = [lambda e: e, lambda e: ("Paren", e), lambda e: ("Paren", ("Paren", e)), lambda e: ("Bin", ("Var", "x"), "-", e), lambda e: ("Bin", e, "+", ("Var", "x")),
+            lambda e: ("Call", ("Var", "f"), [e]), lambda e: ("List", [e, e]), lambda e: ("Tuple", [e, ("Var", "x")]), lambda e: ("Let", ("Sym", "v"), None, e),
+            lambda e: ("Dict", [(("Str", "k"), e)]), lambda e: ("Return", e), lambda e: ("If", ("Var", "x"), [e], [e]), lambda e: ("MethodCall", ("Paren", e), "m", [])]
+    n0 += run_trees(ctx, "limit-literals", [c(e) for e in X for c in ctxs])
     bodies_pool = [[], [("Var", "x")], [("Let", ("Sym", "v"), None, ("Int", 7)), ("Return", ("Var", "v"))], [("If", ("Var", "x"), [("Break",)], None)]]
     nt = run_trees(ctx, "toplevel-items", gen.toplevel_items(bodies_pool), as_items=True)
     # multi-item programs: every ordered pair of a representative item set (separator handling between items)
